@@ -18,6 +18,9 @@
    * hashstore.yaml is abstracted to [cfg]: two ints and two strings.  PyYAML's dump/load
      round trip on these is trusted (checked by the correspondence harness).  Creating a store
      with a namespace that is not a str cannot be expressed with [cfg]; see [out_of_model].
+   * store_path is assumed to be something [Path()] accepts (str or Path): for any other kind
+     Python raises TypeError at [Path(prop_store_path)] (:100), after validation and before the
+     yaml comparison; that test is not modelled.
    * The three data directories objects/ metadata/ refs/ are collapsed into one bit
      [data_dirs_exist] ("the store has been populated"): worlds in which only some of the three
      exist are not distinguished. *)
@@ -546,6 +549,21 @@ Proof.
     apply validate_dict_ok_iff. exact Hrest.
 Qed.
 
+(* validation never raises anything but KeyError / ValueError *)
+Theorem validate_error_classes : forall p e,
+  validate p = inl e -> e = EKeyError \/ e = EValueError.
+Proof.
+  intros p e Hv. destruct p as [[|kv r]|]; simpl in Hv;
+    try (injection Hv as Hv; subst e; right; reflexivity).
+  unfold validate_dict, req_int, req in Hv.
+  repeat match type of Hv with
+         | context [match get ?k ?q with _ => _ end] => destruct (get k q)
+         | context [if is_none ?v then _ else _] => destruct (is_none v)
+         | context [match py_int ?v with _ => _ end] => destruct (py_int v)
+         end;
+    try discriminate Hv; injection Hv as Hv; subst e; auto.
+Qed.
+
 Lemma open_validate_inl : forall y re dd p e,
   validate p = inl e -> open_decision y re dd p = Refuse e.
 Proof. intros y re dd p e Hv. unfold open_decision. rewrite Hv. reflexivity. Qed.
@@ -782,24 +800,12 @@ Proof.
     + rewrite open_existing_eq in Href.
       destruct (validate p) as [e | [[[[vp d] w] a] n]] eqn:Hv.
       * exfalso. injection Href as He. subst e.
-        destruct p as [[|kv r]|]; simpl in Hv; try discriminate Hv.
-        unfold validate_dict, req_int, req in Hv.
-        repeat match type of Hv with
-               | context [match get ?k ?q with _ => _ end] => destruct (get k q)
-               | context [if is_none ?v then _ else _] => destruct (is_none v)
-               | context [match py_int ?v with _ => _ end] => destruct (py_int v)
-               end; discriminate Hv.
+        destruct (validate_error_classes _ _ Hv) as [He | He]; discriminate He.
       * destruct (same_cfg y d w a n); discriminate Href.
     + unfold open_decision in Href.
       destruct (validate p) as [e | [[[[vp d] w] a] n]] eqn:Hv.
       * exfalso. injection Href as He. subst e.
-        destruct p as [[|kv r]|]; simpl in Hv; try discriminate Hv.
-        unfold validate_dict, req_int, req in Hv.
-        repeat match type of Hv with
-               | context [match get ?k ?q with _ => _ end] => destruct (get k q)
-               | context [if is_none ?v then _ else _] => destruct (is_none v)
-               | context [match py_int ?v with _ => _ end] => destruct (py_int v)
-               end; discriminate Hv.
+        destruct (validate_error_classes _ _ Hv) as [He | He]; discriminate He.
       * destruct (re && dd) eqn:Hrd; [discriminate Href|].
         destruct (accepted_algo a) as [algo|] eqn:Halgo; [|discriminate Href].
         split; [reflexivity|]. split; [reflexivity|].
@@ -978,19 +984,42 @@ Proof.
   intros k' [Hk | [Hk | Hk]]; try (subst k'; assumption). contradiction.
 Qed.
 
-(* validation never raises anything but KeyError / ValueError *)
-Theorem validate_error_classes : forall p e,
-  validate p = inl e -> e = EKeyError \/ e = EValueError.
+(* ... and if no key is bad, validation succeeds: the key-by-key view is complete. *)
+Theorem validate_ok_iff_keys : forall p : props,
+  p <> [] ->
+  ((exists t, validate (Some p) = inr t) <->
+   (forall k, In k required_keys -> key_error k p = None)).
 Proof.
-  intros p e Hv. destruct p as [[|kv r]|]; simpl in Hv;
-    try (injection Hv as Hv; subst e; right; reflexivity).
-  unfold validate_dict, req_int, req in Hv.
-  repeat match type of Hv with
-         | context [match get ?k ?q with _ => _ end] => destruct (get k q)
-         | context [if is_none ?v then _ else _] => destruct (is_none v)
-         | context [match py_int ?v with _ => _ end] => destruct (py_int v)
-         end;
-    try discriminate Hv; injection Hv as Hv; subst e; auto.
+  intros p Hne. rewrite (validate_some _ Hne). unfold validate_dict. split.
+  - intros [t Ht] k Hin.
+    destruct (req "store_path" p) as [e1|v1] eqn:H1; [discriminate Ht|].
+    destruct (req_int "store_depth" p) as [e2|v2] eqn:H2; [discriminate Ht|].
+    destruct (req_int "store_width" p) as [e3|v3] eqn:H3; [discriminate Ht|].
+    destruct (req "store_algorithm" p) as [e4|v4] eqn:H4; [discriminate Ht|].
+    destruct (req "store_metadata_namespace" p) as [e5|v5] eqn:H5; [discriminate Ht|].
+    unfold required_keys in Hin. simpl in Hin.
+    destruct Hin as [Hk | [Hk | [Hk | [Hk | [Hk | Hk]]]]]; try contradiction; subst k.
+    + rewrite key_error_path, H1. reflexivity.
+    + rewrite key_error_depth, H2. reflexivity.
+    + rewrite key_error_width, H3. reflexivity.
+    + rewrite key_error_algo, H4. reflexivity.
+    + rewrite key_error_ns, H5. reflexivity.
+  - intros Hall.
+    pose proof (Hall "store_path" (or_introl eq_refl)) as H1.
+    pose proof (Hall "store_depth" (or_intror (or_introl eq_refl))) as H2.
+    pose proof (Hall "store_width" (or_intror (or_intror (or_introl eq_refl)))) as H3.
+    pose proof (Hall "store_algorithm"
+                     (or_intror (or_intror (or_intror (or_introl eq_refl))))) as H4.
+    pose proof (Hall "store_metadata_namespace"
+                     (or_intror (or_intror (or_intror (or_intror (or_introl eq_refl)))))) as H5.
+    rewrite key_error_path in H1. rewrite key_error_depth in H2. rewrite key_error_width in H3.
+    rewrite key_error_algo in H4. rewrite key_error_ns in H5.
+    destruct (req "store_path" p) as [e1|v1]; [discriminate H1|].
+    destruct (req_int "store_depth" p) as [e2|v2]; [discriminate H2|].
+    destruct (req_int "store_width" p) as [e3|v3]; [discriminate H3|].
+    destruct (req "store_algorithm" p) as [e4|v4]; [discriminate H4|].
+    destruct (req "store_metadata_namespace" p) as [e5|v5]; [discriminate H5|].
+    eexists. reflexivity.
 Qed.
 
 (* ------------------------------------------------------------------ *)
@@ -1086,8 +1115,10 @@ Print Assumptions missing_key_refused.
 Print Assumptions none_value_refused.
 Print Assumptions non_int_refused.
 Print Assumptions validate_error_classes.
+Print Assumptions validate_ok_iff_keys.
 Print Assumptions extra_keys_ignored.
 Print Assumptions mode_of_env_iff.
 Print Assumptions init_primitives_fixed.
+Print Assumptions init_primitives_fixed_iff.
 Print Assumptions init_primitives_today_never.
 Print Assumptions init_primitives_today_refuted.
